@@ -23,7 +23,7 @@ RULE = ("stores of 2-10 events x clock T; non-trivial = the store holds an event
 ASSUMPTIONS = ["clock injected through the collectors' module-level time(); SQLite only; LMDB engine modelled",
                "LMDB never stores ephemeral events, so 'ephemeral removed' is exercised on SQL and 'not queryable' on both"]
 
-KINDS = [1, 1, 19999, 20000, 25000, 29999, 30000]
+KINDS = [1, 1, 19999, 20000, 25000, 29999, 30000, 0, 3, 10002]  # replaceable kinds get one author per event
 CLOCKS = [1_700_000_000, 1_699_999_999, 1_700_000_001, 1_999_999_999, 1_000_000_000, 1_234_567_890]
 
 
@@ -47,8 +47,8 @@ def st_case(draw):
             tags.append(["expiration", draw(st.sampled_from(exp_values(T)))])
         if draw(st.booleans()):
             tags.insert(0, ["t", "a"])
-        evs.append(E.free(("%02x" % (i + 1)) * 32, E.ADJ_HEX[3], kind, T - 50 + i, tags,
-                          ))
+        evs.append(E.free(("%02x" % (i + 1)) * 32, E.ADJ_HEX[3] if kind not in (0, 3, 10002) else ("%02x" % (0x41 + i)) * 32,
+                          kind, T - 50 + i, tags))
         if kind == 30000:
             evs[-1]["tags"].append(["d", str(i)])
     # further passes of the SAME collector, each preceded by re-submissions of earlier events
